@@ -642,12 +642,40 @@ func (c *Ctx) metadataMapping(pMeta string) {
 		return
 	}
 	c.Analysed(cdm)
+	// the function that fills the metadata map: CreateDocumentMetadata, or the unexported building phase it calls
+	// (whose values are rendered in CreateDocumentMetadata's frame, validation helpers with one success exit inlined)
+	constUpdates := func(f *ssa.Function) int {
+		n := 0
+		forEachInstr(f, func(in ssa.Instruction) {
+			if mu, ok := in.(*ssa.MapUpdate); ok {
+				if _, isK := mu.Key.(*ssa.Const); isK {
+					n++
+				}
+			}
+		})
+		return n
+	}
+	host, henv := cdm, Env(nil)
+	if constUpdates(cdm) < 5 {
+		for _, g := range c.helpersOf(cdm, 1) {
+			if constUpdates(g) > constUpdates(host) {
+				for _, cl := range callsTo(cdm, g) {
+					c.inlineHelpers = true
+					host, henv = g, c.calleeEnv(&cl.Call, g, nil)
+					c.inlineHelpers = false
+				}
+			}
+		}
+		c.Analysed(host)
+	}
+	c.condEnv = henv
+	defer func() { c.condEnv = nil }()
 	type upd struct{ key, val string }
 	var ups []upd
-	forEachInstr(cdm, func(in ssa.Instruction) {
+	forEachInstr(host, func(in ssa.Instruction) {
 		if mu, ok := in.(*ssa.MapUpdate); ok {
 			if _, isK := mu.Key.(*ssa.Const); isK {
-				ups = append(ups, upd{unquote(c.Path(mu.Key, nil)), c.Path(mu.Value, nil)})
+				ups = append(ups, upd{unquote(c.Path(mu.Key, nil)), c.Path(mu.Value, henv)})
 			}
 		}
 	})
@@ -700,7 +728,7 @@ func (c *Ctx) metadataMapping(pMeta string) {
 	entryGuard := func(cnd string) bool {
 		return strings.HasPrefix(cnd, "($1 ") || strings.HasPrefix(cnd, "($1.Doc ") || strings.HasPrefix(cnd, "($2 ") || cnd == `$2["published"]#1=true`
 	}
-	forEachInstr(cdm, func(in ssa.Instruction) {
+	forEachInstr(host, func(in ssa.Instruction) {
 		mu, ok := in.(*ssa.MapUpdate)
 		if !ok {
 			return
@@ -770,9 +798,13 @@ func (c *Ctx) metadataMapping(pMeta string) {
 	// de-duplication keyed by canonical reference
 	if f := c.Fn(pMeta, "getPublishedOperations"); f != nil {
 		dd := false
+		// a local set searched and filled with the operation's canonical reference (directly, or through the methods of
+		// a set type)
 		forEachInstr(f, func(in ssa.Instruction) {
-			if lk, ok := in.(*ssa.Lookup); ok && lk.CommaOk {
-				if _, isMM := lk.X.(*ssa.MakeMap); isMM && c.Path(lk.Index, nil) == "$0[ι].CanonicalReference" {
+			if mm, ok := in.(*ssa.MakeMap); ok {
+				look, fill := map[string]bool{}, map[string]bool{}
+				c.setOps(mm, nil, 0, look, fill)
+				if look["$0[ι].CanonicalReference"] && fill["$0[ι].CanonicalReference"] && len(look) == 1 && len(fill) == 1 {
 					dd = true
 				}
 			}
